@@ -80,6 +80,15 @@ CHECKS["C17"] = dict(
     engine="tlc+replay",
 )
 
+CHECKS["C12"] = dict(
+    category="model_checking",
+    text="Limits.tla is the symbolic decision table of the property: for each of 12 conversion cases which raw endpoint of the data type maps to which physical limit (identity/table: raw range; LINEAR by sign of a; linear RAT_FUNC inverted by sign of f/b; FORM and general RAT_FUNC unbounded) and when a report is due. TLC enumerates and sanity-checks the complete table (5 element kinds x 11 data types x 12 cases x 4 placements = 2640 rows); every row is instantiated with seeded coefficients, evaluated in exact rational arithmetic, the declared limits are placed clearly inside/outside, and the real check() must report a LimitCheckError for the element exactly when the table says so.",
+    design_ref="DESIGN.md §4.11, §6 C12, §7",
+    note="The case analysis is decided by the TLA+ table; the numeric instantiation is exploration (exact rationals in Python, limits clearly inside/outside by at least 1 % of the range); accuracy near the documented tolerance and double overflow corner cases are not verified.",
+    technique="TLA+ decision table (Limits.tla) enumerated by TLC; rows instantiated numerically and executed on the real check()",
+    engine="tlc+replay",
+)
+
 PENDING = "check not built yet in this round; planned per DESIGN.md §6 (no claim made until the TLA+ module and its binding exist)"
 NOT_APPLICABLE = {}
 
